@@ -324,7 +324,12 @@ class _MockMOFWBEMConnection(ResolverMixin, BaseRepositoryConnection):
 
         """
         modified_class = args[0] if args else kwargs['ModifiedClass']
-        ns = kwargs.get('namespace', self.default_namespace)
+        if len(args) > 1:
+            # namespace passed as positional argument, as in
+            # WBEMConnection.ModifyClass(ModifiedClass, namespace)
+            ns = args[1]
+        else:
+            ns = kwargs.get('namespace', self.default_namespace)
 
         self.conn.ModifyClass(modified_class, namespace=ns)
 
